@@ -29,6 +29,7 @@ type modesResult struct {
 	Seed        int    `json:"seed"`
 	Restart     bool   `json:"restart"`
 	Failing     bool   `json:"failing_jobs"`
+	MaxGapMs    int64  `json:"sibling_max_gap_ms"`
 }
 
 type inflight struct {
@@ -209,6 +210,93 @@ func runIndependent(seed int) modesResult {
 	return res
 }
 
+// unbounded mode: a recurring job that fails and is still in its retry sequence (4 retries, 150 ms apart)
+// when its next fire times come must delay neither a sibling ticker nor its own next fire times
+func runRetryingIndependent(seed int) modesResult {
+	res := modesResult{Kind: "modes", Mode: "unbounded", Test: "retrying_independent", Jobs: 2, Seed: seed, Failing: true}
+	s, _ := quartz.NewStdScheduler(modeOpts("unbounded", 0)...)
+	var own, sib atomic.Int64
+	var last, maxGap atomic.Int64
+	base := time.Now()
+	s.ScheduleJob(quartz.NewJobDetailWithOptions(&funcJob{"retrying", func(ctx context.Context) error {
+		own.Add(1)
+		return errMixed
+	}}, quartz.NewJobKey("retrying"), &quartz.JobDetailOptions{MaxRetries: 4, RetryInterval: 150 * time.Millisecond}), quartz.NewSimpleTrigger(100*time.Millisecond))
+	s.ScheduleJob(detail("ticker", func(ctx context.Context) error {
+		now := int64(time.Since(base))
+		if l := last.Swap(now); l != 0 {
+			g := now - l
+			for {
+				m := maxGap.Load()
+				if g <= m || maxGap.CompareAndSwap(m, g) {
+					break
+				}
+			}
+		}
+		sib.Add(1)
+		return nil
+	}), quartz.NewSimpleTrigger(10*time.Millisecond))
+	s.Start(context.Background())
+	time.Sleep(1600 * time.Millisecond)
+	res.OwnNext, res.Sibling = own.Load(), sib.Load()
+	res.MaxGapMs = maxGap.Load() / 1e6
+	res.WaitOK = stopAndWait(s, 5*time.Second)
+	res.Execs = res.OwnNext + res.Sibling
+	return res
+}
+
+// pool mode: jobs whose error is (or wraps) a context error of their own must not cost the pool its workers
+func runCtxErrThenBarrier(limit, seed int) modesResult {
+	res := modesResult{Kind: "modes", Mode: "pool", Limit: limit, Test: "ctxerr_then_barrier", Bound: limit, Jobs: 2*limit + 2 + limit, Barrier: limit, Seed: seed, Failing: true}
+	s, _ := quartz.NewStdScheduler(modeOpts("pool", limit)...)
+	var fl inflight
+	var pre, execs atomic.Int64
+	npre := 2*limit + 2
+	for i := 0; i < npre; i++ {
+		err := error(context.DeadlineExceeded)
+		if i%2 == 1 {
+			err = fmt.Errorf("lookup aborted: %w", context.Canceled)
+		}
+		s.ScheduleJob(detail(fmt.Sprintf("ce%d", i), func(ctx context.Context) error {
+			fl.enter()
+			defer fl.exit()
+			pre.Add(1)
+			return err
+		}), quartz.NewRunOnceTrigger(time.Millisecond))
+	}
+	s.Start(context.Background())
+	pollUntil(4*time.Second, func() bool { return pre.Load() >= int64(npre) })
+	var inside atomic.Int64
+	reached := make(chan struct{})
+	var once sync.Once
+	for i := 0; i < limit; i++ {
+		s.ScheduleJob(detail(fmt.Sprintf("cb%d", i), func(ctx context.Context) error {
+			fl.enter()
+			defer fl.exit()
+			execs.Add(1)
+			if inside.Add(1) >= int64(limit) {
+				once.Do(func() { close(reached) })
+			}
+			defer inside.Add(-1)
+			select {
+			case <-reached:
+			case <-time.After(5 * time.Second):
+			case <-ctx.Done():
+			}
+			return nil
+		}), quartz.NewRunOnceTrigger(time.Millisecond))
+	}
+	select {
+	case <-reached:
+		res.Reached = true
+	case <-time.After(5 * time.Second):
+	}
+	res.WaitOK = stopAndWait(s, 5*time.Second)
+	res.MaxInflight = fl.max.Load()
+	res.Execs = pre.Load() + execs.Load()
+	return res
+}
+
 func cmdModes() {
 	seed := argInt(2, 1)
 	tier := argStr(3, "quick")
@@ -250,5 +338,8 @@ func cmdModes() {
 	run(func() modesResult { return runBarrierR("blocking", 0, 1, 2, 2, hold, "barrier_n1", seed, true) })
 	run(func() modesResult { return runMixed("unbounded", 5, 0, seed) })
 	run(func() modesResult { return runIndependent(seed) })
+	run(func() modesResult { return runRetryingIndependent(seed) })
+	run(func() modesResult { return runCtxErrThenBarrier(2, seed) })
+	run(func() modesResult { return runCtxErrThenBarrier(3, seed) })
 	wg.Wait()
 }
